@@ -40,6 +40,7 @@ func Execute(h *History) *HistTrace {
 // ModelStep is the model's output for one step.
 type ModelStep struct {
 	R, D, V string
+	N       string // structural audit of the model state: "ok" or the failed checks
 }
 
 // RunModel feeds the traces to modelrun and returns its per-step output.
@@ -83,6 +84,8 @@ func RunModel(hts []*HistTrace) ([][]ModelStep, error) {
 			ms.D = line[2:]
 		case 'V':
 			ms.V = line[2:]
+		case 'N':
+			ms.N = line[2:]
 			cur = append(cur, ms)
 		case 'E':
 			return nil, fmt.Errorf("modelrun: %s", line)
@@ -103,6 +106,7 @@ const (
 	KindImplRes  = "impl-result"  // real result differs from the faithful model's
 	KindImplDump = "impl-dump"    // real tables differ from the faithful model's
 	KindSpec     = "spec"         // behaviour deviates from the abstract specification
+	KindAudit    = "audit"        // the reached state breaks a structural / no-trace / metadata rule
 	KindHarness  = "harness"      // could not run
 )
 
@@ -134,6 +138,11 @@ func Compare(ht *HistTrace, ms []ModelStep) Verdict {
 		if st.D != m.D {
 			v.Kind, v.Step = KindImplDump, i
 			v.Detail = fmt.Sprintf("step %d %v\n  real : %s\n  model: %s", i, st.Input, st.D, m.D)
+			return v
+		}
+		if m.N != "ok" {
+			v.Kind, v.Step = KindAudit, i
+			v.Detail = fmt.Sprintf("step %d %v\n  audit failed: %s\n  state: %s", i, st.Input, m.N, st.D)
 			return v
 		}
 		switch {
@@ -233,7 +242,7 @@ func Describe(ht *HistTrace, ms []ModelStep) string {
 			if st.D != ms[i].D {
 				fmt.Fprintf(&b, "   real D: %s\n  model D: %s\n", st.D, ms[i].D)
 			}
-			fmt.Fprintf(&b, "        V: %s\n", ms[i].V)
+			fmt.Fprintf(&b, "        V: %s   audit: %s\n", ms[i].V, ms[i].N)
 		}
 	}
 	return b.String()
